@@ -185,7 +185,7 @@ theorem storeDefinition_ok (w : World) (id newId : String) (upd orig : Task) (ho
     (storeDefinition w id newId upd).2 = if id ≠ newId then !(w.store.tasks newId).isSome else true := by
   unfold storeDefinition
   split
-  · split <;> simp_all [tasksCreate_ok]
+  · cases hx : w.store.tasks newId <;> simp_all [tasksCreate_ok]
   · simp [tasksReplace_ok, ho]
 
 theorem storeDefinition_view (w : World) (id newId : String) (upd orig : Task) (ho : w.store.tasks id = some orig) :
@@ -194,11 +194,7 @@ theorem storeDefinition_view (w : World) (id newId : String) (upd orig : Task) (
       else w.view.put id upd := by
   unfold storeDefinition
   split
-  · split
-    · rename_i h; rw [tasksCreate_ok] at h; simp at h
-      simp [tasksCreate_view, h]
-    · rename_i h; rw [tasksCreate_ok] at h; simp at h
-      simp [tasksCreate_view, h]
+  · cases hx : w.store.tasks newId <;> simp_all [tasksCreate_ok, tasksCreate_view]
   · simp [tasksReplace_view, ho]
 
 /-- In flight between "definition stored" and "running state adjusted": everything executing is stored and enabled
@@ -253,7 +249,7 @@ theorem Flight.reassoc {id newId : String} {upd : Task} {e0 : String → Bool} {
 /-- From the in-flight state through "restart when renamed" and "apply the status change". -/
 theorem finishUpdate_inv (env : Env) (fail : List String) (W : World) (id newId : String) (orig upd : Task)
     (hf : Flight id newId upd W.exec W.view) (hex : W.exec id = true → orig.enabled = true) :
-    ExecInv (restartRenamed env fail W id newId orig upd).1 ∧
+    (¬ (restartRenamed env fail W id newId orig upd).2 = true → ExecInv (restartRenamed env fail W id newId orig upd).1) ∧
     ((restartRenamed env fail W id newId orig upd).2 = true →
       ExecInv (applyStatus env fail (restartRenamed env fail W id newId orig upd).1 id newId orig upd).1) := by
   obtain ⟨hx, hnew, _⟩ := hf
@@ -266,14 +262,37 @@ theorem finishUpdate_inv (env : Env) (fail : List String) (W : World) (id newId 
     have hnew' : (stopTask W id).store.tasks newId = some upd := by rw [stopTask_store]; exact hnew
     have hst : ExecInv (startTask env fail (stopTask W id) newId upd).1 :=
       startTask_inv env fail _ newId upd upd hstop hnew' hue
-    refine ⟨by unfold ExecInv; rw [note_view]; exact hst, fun _ => ?_⟩
+    refine ⟨fun _ => by unfold ExecInv; rw [note_view]; exact hst, fun _ => ?_⟩
     unfold applyStatus
     simp only [hoe, hue, bne_self_eq_false, Bool.false_eq_true, if_false]
     unfold ExecInv; rw [note_view, note_view]; exact hst
   · rename_i hc
-    -- not (renamed ∧ both enabled)
-    have hclose : (orig.enabled = upd.enabled) → W.view.EI := fun heq =>
-      hx.close (fun hxe => by
+    refine ⟨fun hn => absurd rfl hn, fun _ => ?_⟩
+    -- not (renamed ∧ both enabled): the executing set is untouched so far
+    have hoff : orig.enabled = false → W.view.EI := fun hd =>
+      hx.close (fun hxe => by rw [hex hxe] at hd; cases hd)
+    unfold applyStatus
+    dsimp only
+    split
+    · rename_i hch
+      split
+      · -- becomes enabled: orig was disabled, hence not executing
+        rename_i hue
+        have hoe : orig.enabled = false := by
+          cases hoe : orig.enabled
+          · rfl
+          · rw [hoe, hue] at hch; simp at hch
+        have hst : ExecInv (startTask env fail W newId upd).1 :=
+          startTask_inv env fail W newId upd upd (hoff hoe) hnew hue
+        split <;> (unfold ExecInv; rw [note_view]; exact hst)
+      · -- becomes disabled: stop the old ID
+        unfold ExecInv; rw [note_view, stopTask_view]; exact hx.stop
+    · -- status unchanged
+      rename_i hch
+      have heq : orig.enabled = upd.enabled := by
+        cases h1 : orig.enabled <;> cases h2 : upd.enabled <;> simp [h1, h2] at hch <;> rfl
+      unfold ExecInv; rw [note_view]
+      exact hx.close (fun hxe => by
         have hoe := hex hxe
         have hue : upd.enabled = true := by rw [← heq]; exact hoe
         have : id = newId := by
@@ -282,20 +301,223 @@ theorem finishUpdate_inv (env : Env) (fail : List String) (W : World) (id newId 
           | inr h => exact absurd ⟨h, hoe, hue⟩ hc
         subst this
         exact ⟨upd, hnew, hue⟩)
-    have hoff : orig.enabled = false → W.view.EI := fun hd =>
-      hx.close (fun hxe => by rw [hex hxe] at hd; cases hd)
-    refine ⟨?_, fun _ => ?_⟩
-    · -- the world itself is only in flight; but ExecInv of it is needed only when the request ends here, which it does not
-      -- (restartRenamed returns true): we prove what is needed by cases on the status change
-      by_cases heq : orig.enabled = upd.enabled
-      · exact hclose heq
-      · -- status changes: the request continues with applyStatus; still, W may violate the invariant in flight.
-        -- It does not: either orig is disabled (not executing), or it is enabled and …
-        cases hoe : orig.enabled
-        · exact hoff hoe
-        · -- orig enabled, upd disabled: W.exec id may be true while the stored record is already disabled
-          -- → ExecInv W is false in general. This conjunct is therefore only claimed when the request stops here.
-          exact (hclose (by
-            exfalso
-            sorry))
-    · sorry
+
+theorem updateCommit_inv (v : Variant) (env : Env) (fail : List String) (w : World) (id newId : String) (orig upd : Task)
+    (reassoc : Bool) (h : ExecInv w) (ho : w.store.tasks id = some orig) :
+    ExecInv (updateCommit v env fail w id newId orig upd reassoc).1 := by
+  unfold updateCommit
+  split
+  · rename_i hfail
+    simp at hfail
+    unfold ExecInv
+    rw [storeDefinition_failed w id newId upd orig ho (by rw [hfail]; simp)]
+    exact h
+  · rename_i hok
+    simp at hok
+    dsimp only
+    have hf := storeDefinition_flight w id newId upd orig h ho hok
+    have hf1 := Flight.reassoc (reassoc && !v.assocEarly) orig upd.tmpl hf
+    have hexec : (if (reassoc && !v.assocEarly) = true then reassociate (storeDefinition w id newId upd).1 id orig upd.tmpl newId
+        else (storeDefinition w id newId upd).1).exec = w.exec := hf1.2.2
+    have hex : (if (reassoc && !v.assocEarly) = true then reassociate (storeDefinition w id newId upd).1 id orig upd.tmpl newId
+        else (storeDefinition w id newId upd).1).exec id = true → orig.enabled = true := by
+      rw [hexec]
+      intro he
+      obtain ⟨t, ht, hen⟩ := h id he
+      rw [view_tasks, ho] at ht; cases ht; exact hen
+    have hfin := finishUpdate_inv env fail _ id newId orig upd (by rw [hexec]; exact hf1) hex
+    revert hfin
+    generalize (if (reassoc && !v.assocEarly) = true then reassociate (storeDefinition w id newId upd).1 id orig upd.tmpl newId
+        else (storeDefinition w id newId upd).1) = W1
+    intro hfin
+    cases hr : (restartRenamed env fail W1 id newId orig upd).2
+    · simp only [Bool.not_false, if_true]; exact hfin.1 (by rw [hr]; simp)
+    · simp only [Bool.not_true, Bool.false_eq_true, if_false]; exact hfin.2 hr
+
+theorem updateTask_inv (v : Variant) (env : Env) (fail : List String) (w : World) (id : String) (r : TaskReq)
+    (h : ExecInv w) : ExecInv (updateTask v env fail w id r).1 := by
+  unfold updateTask
+  split
+  · unfold ExecInv; rw [note_view]; exact h
+  · rename_i orig ho
+    split
+    · unfold ExecInv; rw [note_view]; exact h
+    · rename_i script m _
+      dsimp only
+      have hw1 : ∀ (c : Bool) (nid : String), ExecInv (if c = true then reassociate w id orig m nid else w) ∧
+          (if c = true then reassociate w id orig m nid else w).store.tasks id = some orig := by
+        intro c nid
+        split
+        · refine ⟨?_, ?_⟩
+          · unfold ExecInv; rw [reassociate_view]; split <;> exact h
+          · have := congrArg View.tasks (reassociate_view w id orig m nid)
+            rw [view_tasks] at this; rw [this]; split <;> exact ho
+        · exact ⟨h, ho⟩
+      split
+      · unfold ExecInv; rw [note_view]; exact (hw1 _ _).1
+      · exact updateCommit_inv v env fail _ id _ orig _ _ (hw1 _ _).1 (hw1 _ _).2
+
+/-! ### delete -/
+
+theorem deleteTask_view_none (w : World) (id : String) (hn : w.store.tasks id = none) :
+    (deleteTask w id).1.view = w.view := by
+  unfold deleteTask
+  simp only [tx_store, hn]
+  simp
+
+theorem deleteTask_view_some (w : World) (id : String) (t : Task) (ht : w.store.tasks id = some t) :
+    (deleteTask w id).1.view =
+      ((if t.enabled = true then (if t.tmpl ≠ "" then w.view.setAssoc t.tmpl id false else w.view).setExec id false
+        else (if t.tmpl ≠ "" then w.view.setAssoc t.tmpl id false else w.view))).del id := by
+  unfold deleteTask
+  simp only [tx_store, ht, tasksDelete_view]
+  split <;> split <;> simp
+
+theorem deleteTask_inv (w : World) (id : String) (h : ExecInv w) : ExecInv (deleteTask w id).1 := by
+  unfold ExecInv at *
+  cases ht : w.store.tasks id with
+  | none => rw [deleteTask_view_none w id ht]; exact h
+  | some t =>
+    rw [deleteTask_view_some w id t ht]
+    have ha : (if t.tmpl ≠ "" then w.view.setAssoc t.tmpl id false else w.view).EI := by split <;> exact h
+    have hexec : (if t.tmpl ≠ "" then w.view.setAssoc t.tmpl id false else w.view).exec = w.exec := by split <;> rfl
+    split
+    · refine (View.EI.del_x (ha.stop id) id).close (fun hx => ?_)
+      simp [View.del, View.setExec] at hx
+    · rename_i hd
+      simp at hd
+      refine (View.EI.del_x ha id).close (fun hx => ?_)
+      have : w.view.exec id = false := h.not_exec_disabled (t := t) ht hd
+      simp only [View.del] at hx
+      rw [hexec] at hx
+      rw [view_exec] at this
+      rw [this] at hx; cases hx
+
+/-! ### templates -/
+
+theorem ExecInv.of_te {w w' : World} (h : ExecInv w) (ht : w'.store.tasks = w.store.tasks) (he : w'.exec = w.exec) :
+    ExecInv w' := fun i hi => by
+  have hi' : w.view.exec i = true := by rw [view_exec, ← he]; exact hi
+  obtain ⟨t, ht', hen⟩ := h i hi'
+  exact ⟨t, by rw [view_tasks, ht]; exact ht', hen⟩
+
+theorem tmplCreate_te (w : World) (id s : String) :
+    (tmplCreate w id s).1.store.tasks = w.store.tasks ∧ (tmplCreate w id s).1.exec = w.exec := by
+  unfold tmplCreate; split <;> exact ⟨rfl, rfl⟩
+theorem tmplReplace_te (w : World) (id s : String) :
+    (tmplReplace w id s).1.store.tasks = w.store.tasks ∧ (tmplReplace w id s).1.exec = w.exec := by
+  unfold tmplReplace; split <;> exact ⟨rfl, rfl⟩
+
+theorem storeTemplate_te (w : World) (id newId s : String) :
+    (storeTemplate w id newId s).1.store.tasks = w.store.tasks ∧ (storeTemplate w id newId s).1.exec = w.exec := by
+  unfold storeTemplate
+  split
+  · split
+    · simp only [note_store, note_exec, tmplDelete, tx_store, tx_exec, Store.delTmpl]
+      exact tmplCreate_te w newId s
+    · simp only [note_store, note_exec]
+      exact tmplCreate_te w newId s
+  · exact tmplReplace_te w id s
+
+theorem createTemplate_inv (env : Env) (w : World) (id s : String) (h : ExecInv w) :
+    ExecInv (createTemplate env w id s).1 := by
+  unfold createTemplate
+  split
+  · unfold ExecInv; rw [note_view]; exact h
+  · split
+    · unfold ExecInv; rw [note_view]; exact h
+    · exact h.of_te (by rw [note_store]; exact (tmplCreate_te w id s).1) (by rw [note_exec]; exact (tmplCreate_te w id s).2)
+
+theorem retargetOne_inv (env : Env) (fail : List String) (oi os ni ns : String) (w : World) (k : String) (h : ExecInv w) :
+    ExecInv (retargetOne env fail oi os ni ns w k).1 := by
+  unfold retargetOne
+  split
+  · unfold ExecInv; rw [note_view, disassociate_view]; exact h
+  · rename_i t ht
+    unfold ExecInv; rw [note_view]
+    refine reloadTask_inv env fail _ k _ t ?_ rfl ?_
+    · split
+      · exact ht
+      · exact ht
+    · split
+      · unfold ExecInv; rw [associate_view]; exact h
+      · exact h
+
+theorem rollbackOne_inv (env : Env) (fail : List String) (oi os : String) (w : World) (k : String) (h : ExecInv w) :
+    ExecInv (rollbackOne env fail oi os w k) := by
+  unfold rollbackOne
+  split
+  · unfold ExecInv; rw [note_view]; exact h
+  · rename_i t ht
+    unfold ExecInv; rw [note_view]
+    exact reloadTask_inv env fail w k _ t ht rfl h
+
+theorem rollback_inv (env : Env) (fail : List String) (oi os : String) (l : List String) (w : World) (h : ExecInv w) :
+    ExecInv (rollback env fail oi os w l) := by
+  induction l generalizing w with
+  | nil => exact h
+  | cons k rest ih => exact ih _ (rollbackOne_inv env fail oi os w k h)
+
+theorem updateAll_inv (env : Env) (fail : List String) (oi os ni ns : String) (l done : List String) (w : World)
+    (h : ExecInv w) : ExecInv (updateAll env fail oi os ni ns w done l).1 := by
+  induction l generalizing w done with
+  | nil => exact h
+  | cons k rest ih =>
+    unfold updateAll
+    split
+    · exact ih _ _ (retargetOne_inv env fail oi os ni ns w k h)
+    · refine rollback_inv env fail oi os _ _ ?_
+      unfold ExecInv; rw [note_view]
+      exact retargetOne_inv env fail oi os ni ns w k h
+
+theorem updateTemplate_inv (env : Env) (fail : List String) (w : World) (id n s : String) (h : ExecInv w) :
+    ExecInv (updateTemplate env fail w id n s).1 := by
+  unfold updateTemplate
+  split
+  · unfold ExecInv; rw [note_view]; exact h
+  · rename_i os _
+    generalize (if n ≠ "" then n else id) = nid
+    generalize (if s ≠ "" then s else os) = ns
+    have hst : ExecInv (storeTemplate w id nid ns).1 :=
+      h.of_te (storeTemplate_te ..).1 (storeTemplate_te ..).2
+    split
+    · unfold ExecInv; rw [note_view]; exact h
+    · split
+      · exact hst
+      · split
+        · unfold ExecInv; rw [note_view]; exact rollback_inv env fail id os _ _ hst
+        · unfold ExecInv; rw [note_view]; exact updateAll_inv env fail id os _ _ _ _ _ hst
+
+theorem deleteTemplate_inv (w : World) (id : String) (h : ExecInv w) : ExecInv (deleteTemplate w id).1 := by
+  unfold deleteTemplate ExecInv
+  rw [note_view, tmplDelete_view]
+  exact h
+
+/-! ### process start, requests, steps -/
+
+/-- Every process start establishes the invariant — on ANY file. -/
+theorem boot_inv (env : Env) (fail : List String) (s : Store) (br : List String) : ExecInv (boot env fail s br) := by
+  obtain ⟨hs, he⟩ := boot_spec env fail s br
+  intro i hi
+  obtain ⟨_, t, ht, hen, _⟩ := (he i).mp hi
+  exact ⟨t, by rw [view_tasks, hs]; exact ht, hen⟩
+
+theorem handle_inv (v : Variant) (env : Env) (fail : List String) (w : World) (op : Op) (h : ExecInv w) :
+    ExecInv (handle v env fail w op).1 := by
+  cases op <;> simp only [handle]
+  · exact createTask_inv v env fail w _ _ h
+  · exact updateTask_inv v env fail w _ _ h
+  · exact deleteTask_inv w _ h
+  · exact createTemplate_inv env w _ _ h
+  · exact updateTemplate_inv env fail w _ _ _ h
+  · exact deleteTemplate_inv w _ h
+  · unfold ExecInv; rw [note_view]; exact boot_inv env fail _ _
+
+theorem step_inv (v : Variant) (env : Env) (fail : List String) (cut : Option Nat) (w : World) (op : Op) (h : ExecInv w) :
+    ExecInv (step v env fail cut w op).1 := by
+  unfold step
+  split
+  · exact handle_inv v env fail _ op h
+  · exact boot_inv env fail _ _
+
+end Kap.C14
